@@ -103,6 +103,33 @@ PROPS = {
                 "closed form. Non-trivial = a hit within the first w bytes of a call, a hit on the last byte of a call, or a call with max_len < w.",
         "assumptions": COMMON_ASSUME + ["window w = 0 and mask_gen shift >= 32 are outside the documented domain and not generated"],
     },
+    "C06": {
+        "title": "Hash manager never loses, duplicates or strands a job; flush always drains",
+        "variant": "default",
+        "quick": {"cases": 30000},
+        "thorough": {"cases": 1200000},
+        "rule": "rapidcheck stateful histories as C01 plus rejected submits (8%) and flushes at any point, all families, followed by a drain phase. Model-based "
+                "invariants after every call: a returned context is one the model says the manager holds (never returned twice), it is not marked processing, its "
+                "status is COMPLETE iff its last accepted segment had LAST else IDLE, held contexts <= documented lanes (synchronous families hold none), flush "
+                "returns NULL iff nothing is held, <= |held| flushes drain, user_data / read-only caller buffers / every context not involved in the call are "
+                "unchanged, every accepted submission is handed back exactly once. Non-trivial = a flush while >=2 contexts are held or a submit that returns a "
+                "context other than the one submitted.",
+        "assumptions": COMMON_ASSUME + ["documented lane counts per family are taken from the headers (4/4/8/16, SHA-512 2/2/4/8, MD5 8/8/16/32, sse_ni 2, avx512_ni 16); "
+                                         "for the dispatchers the bound is the struct's *_MAX_LANES"],
+    },
+    "C11": {
+        "title": "A rejected hash submit changes nothing and poisons no later call",
+        "variant": "default",
+        "quick": {"cases": 30000},
+        "thorough": {"cases": 1200000},
+        "rule": "rapidcheck stateful histories with 25% rejected submits of three kinds (flags with bits outside 0..3 on any context; any submit on a context in flight; "
+                "UPDATE/LAST on a completed context) injected at any manager state, followed by valid continuations incl. continuing/restarting the rejected context; "
+                "isal_ API (return codes) and every family entry point. Oracle: the call hands the context straight back with an error code from the applicable "
+                "reasons; byte images of the manager, of every other context (in flight too) and of the rejected context except its error field are identical "
+                "before/after; every later valid isal_ call returns 0 and no context handed back for a valid submission carries an error; all digests equal the "
+                "reference. Non-trivial = a rejection while >=1 other job is in flight, followed by >=2 valid calls.",
+        "assumptions": COMMON_ASSUME + ["when two rejection reasons apply either code is accepted (the documentation gives no precedence)"],
+    },
 }
 
 # properties not (yet) claimed; kept current as checks are added
